@@ -9,7 +9,7 @@ among the For/While nodes of the function in source order — never under a line
 sequence; None for `while`), L.seq (the iterated sequence), L.interp, L.run.
 `havoc(L)` must rebind every local the body may modify to fresh symbolic values (use L.set).  The
 set of names assigned in the body is computed from the AST and checked against what havoc rebinds:
-a body that writes a local the contract does not havoc is reported (obligation `frame`).
+a body that writes a local the contract does not havoc makes the contract inapplicable: the scenario is UNDECIDED.
 
 Proof rule (while):  inv-init;  { inv ∧ cond } body { inv ∧ variant decreases };  exit: inv ∧ ¬cond.
 Proof rule (for x in seq [else]):  inv(0);  { 0 ≤ k < len ∧ inv(k) } x = seq[k]; body { inv(k+1) };
@@ -108,8 +108,10 @@ class LoopSpec:
         missing = {n for n in must if n not in changed and n not in self.unchanged}
         # locals first bound inside the body are loop-local; they need no havoc
         if missing:
-            interp.run.oblige(self._nm(interp, key, 'frame'), False, kind='frame', meta=dict(
-                self._meta(interp), note=f'loop body assigns {sorted(missing)} but the loop contract does not havoc them'))
+            # the loop contract was written for another shape of this loop (it does not speak about locals the body
+            # assigns): it does not APPLY — the scenario is undecided (and its native oracle is run), not violated
+            raise Unsupported(f'the loop contract does not cover the locals {sorted(missing)} assigned by the loop body '
+                              f'(loop rewritten?)')
 
     def run_while(self, interp, s, fr, key):
         from .interp import BreakEx, ContinueEx
